@@ -307,7 +307,10 @@ def run_traffic(sc):
         res['server_ids'] = [FS.msg_id_of(r) for r in srv.requests]
         # a later request after a fault must be refused
         if fault:
-            time.sleep(0.3)
+            # "promptly": poll with a generous bound instead of a fixed nap, so that a loaded machine cannot turn a slow worker into an alarm
+            t_end = time.time() + (8 if state['closed_at'] else 0.3)
+            while time.time() < t_end and (m.connected or sess.is_alive()):
+                time.sleep(0.02)
             res['connected_after_fault'] = m.connected
             try:
                 m.rpc(new_ele('late'))
